@@ -6,5 +6,6 @@ pub mod ledger;
 pub mod memsrc;
 pub mod procfs;
 pub mod props;
+pub mod world;
 
 pub use engine::{Outcome, Plan, Prop, Tier};
